@@ -34,6 +34,7 @@
     Anything outside the fragment evaluates to [Stuck], which makes the
     equivalence proofs fail (fail closed). *)
 From Coq Require Import QArith Qround Qabs ZArith List Bool String.
+From Coq Require Import Ascii DecimalString.
 From Verde Require Import Lib.QExtra Model.Coordinates.
 Import ListNotations.
 Open Scope string_scope.
@@ -74,7 +75,9 @@ Inductive expr :=
 | EIndex (a : expr) (i : Z)                  (* a[i], i >= 0 a literal *)
 | EIdx (a : expr) (i : expr)                 (* a[i], i computed (negative: from the end) *)
 | ESliceTo (a : expr) (k : Z)                (* a[:k]  (k = -1: all but the last; k >= 0: first k) *)
-| ESliceFrom (a : expr) (k : Z).             (* a[k:], k >= 0 *)
+| ESliceFrom (a : expr) (k : Z)              (* a[k:], k >= 0 *)
+| ECallStar (f : string) (args : list expr) (star : expr)    (* f(args, *star): the elements of the sequence [star] are the last positional arguments *)
+| ECompT (k : comp_kind) (targets : list string) (it : expr) (body : expr).   (* a comprehension with a tuple target: e for a, b in it *)
 
 Inductive stmt :=
 | SAssign (targets : list string) (e : expr)     (* x = e ; a, b = e *)
@@ -89,7 +92,12 @@ Inductive stmt :=
 | SExpr (e : expr)                               (* an expression evaluated for its exceptions *)
 | SRaise
 | SReturn (e : expr)
-| SPass.
+| SPass
+| SMethod (x : string) (m : string) (args : list expr).
+    (* x.m(args) as a statement, where the method may mutate x (fit): x is rebound to the object that the
+       specification "mut:m" in the [user] table returns for (x :: args); the method's result is dropped.
+       Faithful when no alias of x is live: the serialiser admits it for [self] only, and only in functions
+       where [self] occurs in no other way than [self.a], [self.m(..)] and [return self] *)
 
 Record func := { f_params : list string; f_body : list stmt }.
 
@@ -170,6 +178,7 @@ Definition binop_val (op : binop) (a b : val) : option val :=
       else None
   | VA l, _ => bc_l op b a
   | _, VA r => bc_r op a b
+  | VS x, VS y => match op with Add => Some (VS (x ++ y)) | _ => None end   (* str + str *)
   | _, _ => arith op a b
   end.
 
@@ -405,6 +414,45 @@ Definition all_scalar (l : list val) : bool := forallb is_scalar l.
 Definition unB (l : list val) : option (list bool) :=
   map_opt (fun v => match v with VB b => Some b | _ => None end) l.
 
+(** zip: the tuples of the i-th elements, up to the shortest sequence *)
+Fixpoint heads_tails (ls : list (list val)) : option (list val * list (list val)) :=
+  match ls with
+  | [] => Some ([], [])
+  | [] :: _ => None
+  | (x :: t) :: r => match heads_tails r with Some (hs, ts) => Some (x :: hs, t :: ts) | None => None end
+  end.
+Fixpoint zipn (fuel : nat) (ls : list (list val)) : list val :=
+  match fuel with
+  | O => []
+  | S k => match heads_tails ls with Some (hs, ts) => VT hs :: zipn k ts | None => [] end
+  end.
+
+(** the elements of an array in row-major order *)
+Fixpoint flatten_arr (v : val) : list val :=
+  match v with VA l => flat_map flatten_arr l | x => [x] end.
+
+(** fmt.format(arg) for a format string with exactly one replacement field, the plain "{}", and no other
+    brace; [arg] already rendered by str() *)
+Fixpoint has_brace (s : string) : bool :=
+  match s with
+  | EmptyString => false
+  | String c r => Ascii.eqb c "{"%char || Ascii.eqb c "}"%char || has_brace r
+  end.
+Fixpoint format_one (fmt arg : string) : option string :=
+  match fmt with
+  | EmptyString => None
+  | String c r =>
+      if Ascii.eqb c "{"%char then
+        match r with
+        | String d r' => if Ascii.eqb d "}"%char && negb (has_brace r') then Some (arg ++ r') else None
+        | EmptyString => None
+        end
+      else if Ascii.eqb c "}"%char then None
+      else option_map (String c) (format_one r arg)
+  end.
+(** str(z) of a Python int *)
+Definition str_of_Z (z : Z) : string := NilZero.string_of_int (Z.to_int z).
+
 (** builtins of the fragment, on exact numbers *)
 Definition call (f : string) (args : list val) : option (option val) :=   (* None: stuck; Some None: raises *)
   let is := String.eqb f in
@@ -523,6 +571,12 @@ Definition call (f : string) (args : list val) : option (option val) :=   (* Non
     match args with [VA l] => if all_scalar l then Some (Some (VA l)) else None | _ => None end
   else if is "attr:size" then
     match args with [VA l] => if all_scalar l then Some (Some (VZ (Z.of_nat (List.length l)))) else None | _ => None end
+  else if is "attr:shape" then       (* a.shape of a (rectangular) array; an object's own attribute otherwise *)
+    match args with
+    | [VA l] => if rect (VA l) then Some (Some (VT (map (fun n => VZ (Z.of_nat n)) (shape_of (VA l))))) else None
+    | [VO _ fs] => match lookup fs "shape" with Some v => Some (Some v) | None => None end
+    | _ => None
+    end
   else if String.prefix "attr:" f then      (* obj.a: an attribute set in this function, or given with the object *)
     match args with
     | [VO _ fs] => match lookup fs (String.substring 5 (String.length f - 5) f) with
@@ -530,7 +584,46 @@ Definition call (f : string) (args : list val) : option (option val) :=   (* Non
                    | None => None end
     | _ => None
     end
+  else if is "meth:format" then       (* "..{}..".format(x), x an int or a str *)
+    match args with
+    | [VS fmt; VZ z] => match format_one fmt (str_of_Z z) with Some r => Some (Some (VS r)) | None => None end
+    | [VS fmt; VS a] => match format_one fmt a with Some r => Some (Some (VS r)) | None => None end
+    | _ => None
+    end
+  else if is "zip" then               (* zip(s1, .., sn): tuples up to the shortest sequence (rendered as a list: only iterated) *)
+    match map_opt seq_of args with
+    | Some ls => Some (Some (VL (zipn (List.length (hd [] ls)) ls)))
+    | None => None
+    end
+  else if is "meth:reshape" then      (* a.reshape((n,)) / a.reshape((-1,)): the elements in row-major order; ValueError if the sizes differ *)
+    match args with
+    | [VA l; VT [VZ n]] =>
+        if rect (VA l) then
+          let fl := flatten_arr (VA l) in
+          if (n =? -1)%Z || (n =? Z.of_nat (List.length fl))%Z then Some (Some (VA fl))
+          else if (0 <=? n)%Z then Some None else None
+        else None
+    | _ => None
+    end
   else None.
+
+(** binding the target(s) of a comprehension with a tuple target (the same as [bind_pattern] below) *)
+Fixpoint comp_bind_targets (targets : list string) (vs : list val) (env : list (string * val))
+  : option (list (string * val)) :=
+  match targets, vs with
+  | [], [] => Some env
+  | x :: t, v :: r => comp_bind_targets t r ((x, v) :: env)
+  | _, _ => None
+  end.
+Definition comp_bind (targets : list string) (v : val) (env : list (string * val))
+  : list (string * val) + bool :=
+  match targets with
+  | [x] => inl ((x, v) :: env)
+  | _ => match seq_of v with
+         | Some vs => match comp_bind_targets targets vs env with Some env' => inl env' | None => inr true end
+         | None => inr false
+         end
+  end.
 
 Section Eval.
 (** functions of the same module that the fragment may call, given by their
@@ -700,6 +793,41 @@ Fixpoint eval (env : list (string * val)) (e : expr) {struct e} : option (option
       | Some None => Some None
       | _ => None
       end
+  | ECallStar f args star =>
+      match (fix go (l : list expr) : option (option (list val)) :=
+               match l with
+               | [] => Some (Some [])
+               | a :: t => match eval env a with
+                           | Some (Some v) => match go t with Some (Some r) => Some (Some (v :: r)) | o => o end
+                           | Some None => Some None
+                           | None => None end
+               end) args with
+      | Some (Some vs) =>
+          match eval env star with
+          | Some (Some sv) =>
+              match seq_of sv with
+              | Some extra => match user f with Some g => g (vs ++ extra)%list | None => call f (vs ++ extra)%list end
+              | None => None
+              end
+          | Some None => Some None
+          | None => None
+          end
+      | Some None => Some None
+      | None => None
+      end
+  | ECompT k targets it body =>
+      match eval env it with
+      | Some (Some v) =>
+          match seq_of v with
+          | Some vs => comp_loop k (fun v => match comp_bind targets v env with
+                                             | inl env' => eval env' body
+                                             | inr true => Some None
+                                             | inr false => None end) vs
+          | None => None
+          end
+      | Some None => Some None
+      | None => None
+      end
   end.
 
 Fixpoint bind_targets (targets : list string) (vs : list val) (env : list (string * val))
@@ -862,6 +990,19 @@ Fixpoint exec (s : stmt) (env : list (string * val)) {struct s} : outcome :=
   | SRaise => Raised
   | SReturn e => match eval env e with Some (Some v) => Returned v | Some None => Raised | None => Stuck end
   | SPass => Normal env
+  | SMethod x m args =>
+      match lookup env x, eval env (ETuple args) with
+      | Some self, Some (Some (VT vs)) =>
+          match user ("mut:" ++ m) with
+          | Some g => match g (self :: vs) with
+                      | Some (Some self') => Normal ((x, self') :: env)
+                      | Some None => Raised
+                      | None => Stuck end
+          | None => Stuck
+          end
+      | Some _, Some None => Raised
+      | _, _ => Stuck
+      end
   end.
 
 Fixpoint exec_list (l : list stmt) (env : list (string * val)) : outcome :=
